@@ -124,7 +124,8 @@ func vfsBuild(nodes []vfsNode, pre *vfsLog) *vfsTree {
 			t.readers[id], t.writers[id] = sr, sw
 			t.pipes = append(t.pipes, id)
 		case "array":
-			arr := make([]int, len(n.Items))
+			// cap of an array node = spare capacity of the caller's slice (StreamReaderFromArray(s[:k]) with cap(s) > k)
+			arr := make([]int, len(n.Items), len(n.Items)+n.Cap)
 			copy(arr, n.Items)
 			t.readers[id] = StreamReaderFromArray(arr)
 		case "copy":
